@@ -303,11 +303,33 @@ pub fn preprocess_str<T: AsRef<Path>, U: AsRef<Path>, V: BuildHasher>(
         match n.clone() {
             NodeEvent::Enter(RefNode::SourceDescriptionNotDirective(x)) => {
                 let locate: Locate = x.try_into().unwrap();
-                if let Some(last_include_line) = last_include_line {
-                    if last_include_line == locate.line {
+                // Only the line on which the text actually starts counts;
+                // leading whitespace (e.g. the rest of the `include line) doesn't.
+                if let Some((first_line, _)) = occupied_lines(&locate, s) {
+                    if last_include_line == Some(first_line) {
                         return Err(Error::IncludeLine);
                     }
                 }
+            }
+            NodeEvent::Enter(RefNode::SourceDescription(SourceDescription::StringLiteral(x))) => {
+                let locate: Locate = x.nodes.0;
+                if last_include_line == Some(locate.line) {
+                    return Err(Error::IncludeLine);
+                }
+                // The trailing whitespace of the literal may hold compiler directives,
+                // so the line has to be recorded before they are visited.
+                if let Some((_, last_line)) = occupied_lines(&locate, s) {
+                    last_item_line = Some(last_line);
+                }
+            }
+            NodeEvent::Enter(RefNode::SourceDescription(SourceDescription::EscapedIdentifier(
+                x,
+            ))) => {
+                let locate: Locate = x.nodes.0;
+                if last_include_line == Some(locate.line) {
+                    return Err(Error::IncludeLine);
+                }
+                last_item_line = Some(locate.line);
             }
             NodeEvent::Enter(RefNode::CompilerDirective(x)) => {
                 let locate: Locate = x.try_into().unwrap();
@@ -319,14 +341,17 @@ pub fn preprocess_str<T: AsRef<Path>, U: AsRef<Path>, V: BuildHasher>(
             }
             NodeEvent::Leave(RefNode::SourceDescriptionNotDirective(x)) => {
                 let locate: Locate = x.try_into().unwrap();
-                // If the item is whitespace, last_item_line should not be updated
-                if !locate.str(s).trim().is_empty() {
-                    last_item_line = Some(locate.line);
+                // If the item is whitespace, last_item_line should not be updated.
+                // Otherwise it is the line on which the text ends.
+                if let Some((_, last_line)) = occupied_lines(&locate, s) {
+                    last_item_line = Some(last_line);
                 }
             }
             NodeEvent::Leave(RefNode::CompilerDirective(x)) => {
                 let locate: Locate = x.try_into().unwrap();
-                last_item_line = Some(locate.line);
+                if let Some((_, last_line)) = occupied_lines(&locate, s) {
+                    last_item_line = Some(last_line);
+                }
             }
             _ => (),
         }
@@ -794,6 +819,18 @@ pub fn preprocess_str<T: AsRef<Path>, U: AsRef<Path>, V: BuildHasher>(
     }
 
     Ok((ret, defines))
+}
+
+// First and last line on which the text of `locate` has a non-whitespace character.
+fn occupied_lines(locate: &Locate, s: &str) -> Option<(u32, u32)> {
+    let text = locate.str(s);
+    if text.trim().is_empty() {
+        return None;
+    }
+    let leading = &text[..text.len() - text.trim_start().len()];
+    let first = locate.line + leading.matches('\n').count() as u32;
+    let last = locate.line + text.trim_end().matches('\n').count() as u32;
+    Some((first, last))
 }
 
 fn identifier(node: RefNode, s: &str) -> Option<String> {
